@@ -300,4 +300,60 @@ class RKDAEUpdate(_DaeBase):
         yield 'canary:stage_value_is_u0', veq(st.L.u[st.M], st.old_u[0])
 
 
-CONTRACTS = [FullyImplicitUpdate, FullyImplicitF, SemiImplicitF, SemiImplicitIntegrate, SemiImplicitUpdate, RKDAEUpdate]
+class _DaeEndPoint(_DaeBase):
+    """compute_end_point of the DAE sweepers (right end point is a node, no collocation update: anything else is refused): the end value is a NEW
+    object equal to the last node -- not the node itself (SemiImplicitDAE writes its nodes in place, loggers keep the end value) --, an end value left
+    by an earlier call is neither reused nor modified, nothing else changes"""
+
+    cls = None
+
+    def instances(self, tier):
+        return [dict(M=M, mode=mode) for M in ((1, 2) if tier == 'quick' else (1, 2, 3)) for mode in ('copy', 'coll_update')]
+
+    def build(self, inst, mk):
+        from contracts.common import plant_earlier_end_value
+
+        L = _lvl(self.cls[0], self.cls[1], self.cls[2], inst['M'], mk)
+        if inst['mode'] == 'coll_update':
+            L.sweep.params.do_coll_update = True
+        st = State(L=L, M=inst['M'], inst=inst, call=L.sweep.compute_end_point)
+        return plant_earlier_end_value(st, L, L.prob._fresh('L.uend_old'))
+
+    def post(self, st, old, result, exc):
+        L, M = st.L, st.M
+        if st.inst['mode'] == 'coll_update':
+            yield 'quadrature_end_point_refused', isinstance(exc, NotImplementedError)
+            return
+        yield 'returns_normally', exc is None
+        if exc is not None:
+            return
+        from contracts.common import earlier_end_value_clause
+
+        yield 'uend:last_node', veq(L.uend, st.old_u[M])
+        yield 'uend:new_object', all(L.uend is not u for u in L.u) and all(L.uend is not f for f in L.f)
+        yield earlier_end_value_clause(st, L)
+        yield from frame_clauses(old, snapshot({'L': L}), frame=['L.uend'])
+
+    def canary(self, st, old, result, exc):
+        if exc is None:
+            yield 'canary:uend_is_u0', veq(st.L.uend, st.old_u[0])
+        else:
+            yield 'canary:never_raises', False
+
+
+class FullyImplicitEndPoint(_DaeEndPoint):
+    name = 'FullyImplicitDAE.compute_end_point'
+    target = (DAE + 'fullyImplicitDAE.py', 'FullyImplicitDAE.compute_end_point')
+    cls = ('fullyImplicitDAE.py', 'FullyImplicitDAE', 'dae-full')
+    expected_exceptions = (NotImplementedError,)
+
+
+class SemiImplicitEndPoint(_DaeEndPoint):
+    name = 'SemiImplicitDAE.compute_end_point'
+    target = (DAE + 'semiImplicitDAE.py', 'SemiImplicitDAE.compute_end_point')
+    cls = ('semiImplicitDAE.py', 'SemiImplicitDAE', 'dae-semi')
+    expected_exceptions = (NotImplementedError,)
+
+
+
+CONTRACTS = [FullyImplicitEndPoint, SemiImplicitEndPoint, FullyImplicitUpdate, FullyImplicitF, SemiImplicitF, SemiImplicitIntegrate, SemiImplicitUpdate, RKDAEUpdate]
